@@ -36,6 +36,14 @@ func c38(c *Ctx) {
 				c.MustFact(d, "weighted-path-when-not-equal", Truth(FieldLoad(fEq), false))
 			}
 		}
+		for _, d := range draws {
+			c.MustFact(d, "draw-only-from-a-non-empty-set", CmpInt(LenOf(FieldLoad(fItems)), token.NEQ, 0))
+		}
+		for _, r := range returnsOf(nx) {
+			if r.Block() != nx.Recover && ConstNil(r.Results[0]) {
+				c.MustFact(r, "nothing-only-from-an-empty-set", CmpInt(LenOf(FieldLoad(fItems)), token.EQL, 0))
+			}
+		}
 		// search predicate strict
 		okStrict := false
 		for _, a := range nx.AnonFuncs {
@@ -69,6 +77,10 @@ func c38(c *Ctx) {
 			}
 		}
 		c.Expect(nCmp == 1, st, ad, "compares-with-previous-weight", "the equal-weights flag does not compare the new weight with the previous one")
+		// the previous item is read only when one exists
+		for _, in := range instrsWhere(ad, func(in ssa.Instruction) bool { ia, ok := in.(*ssa.IndexAddr); return ok && FieldLoad(fItems)(ia.X) }) {
+			c.MustFact(in, "previous-item-only-when-one-exists", CmpInt(LenOf(FieldLoad(fItems)), token.GTR, 0))
+		}
 		// accumulation
 		for _, s := range storesToField(ad, fAcc) {
 			okA := false
